@@ -23,6 +23,9 @@ theorem store_wf_all_histories (tg : String → Nat) (ops : List Op) (st : St) (
     | add ps => exact WFS_addProposals tg _ ps h
     | remove ps => exact WFS_removeProposals tg ps h
     | view t => exact WFS_view t st.now h
+    | observe t limit order => exact WFS_observe t limit st.now order h
+    | svc b => exact h
+    | filter t ps => exact WFS_filterer t st.now ps h
     | adv d => exact h
     | enq ps => exact h
     | deq t n order => exact h
@@ -220,6 +223,206 @@ theorem unsurfaced_kept (tg : String → Nat) (s : MStore) (hw : WFS s) (sf : Li
       rw [(foldl_remove1_frame tg _ s k (hkx ▸ hns)).2]; exact hg
     · rename_i ht2
       simp [ht2] at hx
+
+/-! ### what the node proposes: the build hooks of the observation -/
+
+/-- `observation_proposes_pending`: whatever the keyed shuffle does (`order`), a build hook adds to the
+observation only proposals the view of that instant returns — unexpired, pending — none twice, at most
+`limit`, and every one of them when they fit into the limit (no omission at the observation level). -/
+theorem observation_proposes_pending (s : MStore) (hw : WFS s) (t limit now : Nat) (order : List String)
+    (ho : order.Nodup) :
+    let out := (s.observe t limit now order).1
+    let view := (s.viewProposals t now).1
+    (out.map (·.workID)).Nodup ∧ (∀ p ∈ out, p ∈ view) ∧ out.length ≤ limit ∧
+    (out.length = limit ∨ ∀ p ∈ view, p ∈ out) ∧
+    (s.observe t limit now order).2 = (s.viewProposals t now).2 := by
+  intro out view
+  have hvnd : (view.map (·.workID)).Nodup := by
+    show (((s.viewProposals t now).1).map (·.workID)).Nodup
+    unfold MStore.viewProposals
+    split
+    · exact (view_each_live_once _ now s.log hw.log hw.logK).2.2.1
+    · split
+      · exact (view_each_live_once _ now s.cond hw.cond hw.condK).2.2.1
+      · simp
+  have hsub : out.Sublist (shuffleBy order view) := cutTo_sublist limit _
+  obtain ⟨hlen, hfull⟩ := cutTo_length limit (shuffleBy order view)
+  refine ⟨List.Nodup.sublist (hsub.map _) (shuffleBy_nodup ho hvnd),
+    fun p hp => mem_view_of_mem_shuffleBy (hsub.subset hp), hlen, ?_, rfl⟩
+  rcases hfull with h | h
+  · exact Or.inl h
+  · right; intro p hp
+    show p ∈ cutTo limit (shuffleBy order view)
+    rw [h]; exact mem_shuffleBy_of_mem hvnd hp
+
+/-- the shuffle is recoverable from the observation (how the correspondence check follows the
+implementation's keyed shuffle without losing or inventing behaviours): whatever order `o1` the hook's
+shuffle took, the model run with the work ids of its result as order returns the same proposals, and the
+store after the hook does not depend on the order at all -/
+theorem observe_choice_recoverable (s : MStore) (hw : WFS s) (t limit now : Nat) (o1 : List String) :
+    let out := (s.observe t limit now o1).1
+    (s.observe t limit now (out.map (·.workID))).1 = out ∧
+    (s.observe t limit now (out.map (·.workID))).2 = (s.observe t limit now o1).2 := by
+  refine ⟨?_, rfl⟩
+  have hvnd : (((s.viewProposals t now).1).map (·.workID)).Nodup := by
+    unfold MStore.viewProposals
+    split
+    · exact (view_each_live_once _ now s.log hw.log hw.logK).2.2.1
+    · split
+      · exact (view_each_live_once _ now s.cond hw.cond hw.condK).2.2.1
+      · simp
+  exact observeHook_recovered limit o1 _ hvnd
+
+/-- `surfaced_not_proposed`: once the remove-from-metadata hook has run on an outcome, no observation
+built from the node's pending set carries the work id of a proposal surfaced in that outcome (any round
+of its history, whoever proposed it) — the hook holds nothing over from earlier rounds: what it proposes
+is a function of the pending set at the time of the call. -/
+theorem surfaced_not_proposed (tg : String → Nat) (s : MStore) (hw : WFS s) (sf : List (List Proposal))
+    (p : Proposal) (hp : p ∈ sf.flatten) (limit now : Nat) (order : List String) :
+    ∀ x ∈ ((removeFromMetadataHook tg sf s).observe (tg p.upkeepID) limit now order).1, x.workID ≠ p.workID := by
+  intro x hx
+  exact surfaced_removed tg s hw sf p hp now x
+    (mem_view_of_mem_shuffleBy ((cutTo_sublist limit _).subset hx))
+
+/-- a proposal surfaced in an outcome is proposed again only after the node's flows have added it again -/
+theorem surfaced_not_proposed_in_round (tg : String → Nat) (st : St) (hw : WFS st.ms) (sf : List (List Proposal))
+    (p : Proposal) (hp : p ∈ sf.flatten) (limit : Nat) (order : List String) :
+    ∀ out, stepOut tg (step tg st (.outcome sf)) (.observe (tg p.upkeepID) limit order) = some out →
+      ∀ x ∈ out, x.workID ≠ p.workID := by
+  intro out ho
+  simp only [stepOut, step, Option.some.injEq] at ho
+  subst ho
+  exact surfaced_not_proposed tg st.ms hw sf p hp limit st.now order
+
+/-- `filterer_withholds_exactly_pending`: the proposal filterer of the node's recovery proposal flow lets a
+payload pass iff no unexpired proposal with its work id is pending — it sees every pending proposal (a
+viewer of the pending set like the build hooks: no omission there either) and nothing that was removed. -/
+theorem filterer_withholds_exactly_pending (s : MStore) (hw : WFS s) (now : Nat) (ps : List Proposal) (p : Proposal) :
+    p ∈ (s.filterer logT now ps).1 ↔
+      p ∈ ps ∧ ∀ k r, s.log.values.get k = some r → recExpired Gen.logRecoveryExpiryNs now r = false →
+        r.proposal.workID ≠ p.workID := by
+  simp only [MStore.filterer, MStore.viewProposals, if_true, filterPayloads, List.mem_filter,
+    Bool.not_eq_true', List.any_eq_false, beq_iff_eq]
+  constructor
+  · rintro ⟨hp, hno⟩
+    refine ⟨hp, fun k r hg he hw' => ?_⟩
+    exact hno r.proposal ((mem_view_iff _ now hw.log _).mpr ⟨k, r, hg, he, rfl⟩) hw'
+  · rintro ⟨hp, hno⟩
+    refine ⟨hp, fun v hv hw' => ?_⟩
+    obtain ⟨k, r, hg, he, hr⟩ := (mem_view_iff _ now hw.log v).mp hv
+    exact hno k r hg he (by rw [hr]; exact hw')
+
+/-! ### life cycle: Start / Close / restart keep every pending proposal -/
+
+def isSvc : Op → Bool
+  | .svc _ => true
+  | _ => false
+
+/-- `Start` and `Close` (accepted or refused) leave both pending sets, the queue and the clock as they are:
+what was added before the store was started, while it runs, or after it was closed is viewed alike -/
+theorem lifecycle_keeps_pending (tg : String → Nat) (st : St) (start : Bool) :
+    (step tg st (.svc start)).ms = st.ms ∧ (step tg st (.svc start)).q = st.q ∧
+    (step tg st (.svc start)).now = st.now ∧
+    (∀ t, stepOut tg (step tg st (.svc start)) (.view t) = stepOut tg st (.view t)) ∧
+    (∀ t limit order, stepOut tg (step tg st (.svc start)) (.observe t limit order) =
+      stepOut tg st (.observe t limit order)) :=
+  ⟨rfl, rfl, rfl, fun _ => rfl, fun _ _ _ => rfl⟩
+
+/-- the service flag: a second `Start` is refused, `Close` of a store that is not running is refused,
+`Start → Close → Start` is accepted each time -/
+theorem lifecycle_flag :
+    (Life.start { running := false }) = ({ running := true }, true) ∧
+    (Life.start { running := true }).2 = false ∧
+    (Life.close { running := false }).2 = false ∧
+    (Life.close { running := true }) = ({ running := false }, true) := by decide
+
+def sameCore (a b : St) : Prop := a.ms = b.ms ∧ a.q = b.q ∧ a.now = b.now
+
+private theorem step_sameCore (tg : String → Nat) {a b : St} (h : sameCore a b) (op : Op) :
+    stepOut tg a op = stepOut tg b op ∧ sameCore (step tg a op) (step tg b op) := by
+  obtain ⟨h1, h2, h3⟩ := h
+  cases op <;> simp [stepOut, step, sameCore, h1, h2, h3]
+
+/-- `lifecycle_transparent`: in EVERY history, erasing all `Start` / `Close` calls changes no result of
+any view, observation or dequeue and no pending set: the life cycle of the store is invisible to the
+proposals it holds (adds before the first `Start`, `Start → add → Close → Start`, …). -/
+theorem lifecycle_transparent (tg : String → Nat) : ∀ (ops : List Op) (a b : St), sameCore a b →
+    (run tg ops a).filterMap id = (run tg (ops.filter (fun o => !isSvc o)) b).filterMap id ∧
+    sameCore (final tg ops a) (final tg (ops.filter (fun o => !isSvc o)) b)
+  | [], a, b, h => ⟨rfl, h⟩
+  | op :: ops, a, b, h => by
+    cases hs : isSvc op with
+    | true =>
+      have hop : ∃ s, op = .svc s := by cases op <;> simp [isSvc] at hs; exact ⟨_, rfl⟩
+      obtain ⟨s, rfl⟩ := hop
+      have h' : sameCore (step tg a (.svc s)) b := h
+      obtain ⟨i1, i2⟩ := lifecycle_transparent tg ops _ b h'
+      simp only [List.filter_cons, hs, Bool.not_true, Bool.false_eq_true, if_false]
+      exact ⟨by simpa [run, stepOut] using i1, by simpa [final] using i2⟩
+    | false =>
+      obtain ⟨o1, o2⟩ := step_sameCore tg h op
+      obtain ⟨i1, i2⟩ := lifecycle_transparent tg ops _ _ o2
+      simp only [List.filter_cons, hs, Bool.not_false, if_true]
+      refine ⟨?_, by simpa [final] using i2⟩
+      simp only [run, List.filterMap_cons, o1]
+      cases stepOut tg b op <;> simp [i1]
+
+/-! ### volume and drain: removing what is not pending changes nothing; adding again restores -/
+
+/-- `orderedMap.Delete` of an absent key is the identity — on the key slice as well as on the values -/
+theorem delete_absent {m : OMap} (h : WF m) {key : String} (hk : key ∉ m.keys) : m.delete key = m := by
+  have hnone : m.values.get key = none := by
+    cases hg : m.values.get key with
+    | none => rfl
+    | some r => exact absurd ((h.dom key).mpr (by simp [hg])) hk
+  have hvals : m.values.del key = m.values := by
+    unfold GMap.del
+    apply List.filter_eq_self.mpr
+    intro e he
+    simp only [ne_eq, decide_not, Bool.not_eq_true', decide_eq_false_iff_not]
+    intro hek
+    have : m.values.get key = some e.2 := GMap.get_of_mem h.valsKN (by rw [← hek]; exact he)
+    rw [hnone] at this; cases this
+  cases m with
+  | mk keys values =>
+    simp only [OMap.delete, OMap.mk.injEq]
+    exact ⟨List.erase_of_not_mem hk, hvals⟩
+
+/-- `RemoveProposals` of a proposal this node does not hold (surfaced through other nodes, removed
+before, expired and purged, never added) leaves the store exactly as it is — however many proposals
+are pending and however often it happens -/
+theorem remove_not_pending_noop (tg : String → Nat) (s : MStore) (hw : WFS s) (p : Proposal)
+    (hl : p.workID ∉ s.log.keys) (hc : p.workID ∉ s.cond.keys) : MStore.remove1 tg s p = s := by
+  unfold MStore.remove1
+  split
+  · rw [delete_absent hw.log hl]
+  · split
+    · rw [delete_absent hw.cond hc]
+    · rfl
+
+theorem removeHook_not_pending_noop (tg : String → Nat) (s : MStore) (hw : WFS s) (sf : List (List Proposal))
+    (h : ∀ p ∈ sf.flatten, p.workID ∉ s.log.keys ∧ p.workID ∉ s.cond.keys) :
+    removeFromMetadataHook tg sf s = s := by
+  rw [removeHook_eq]
+  generalize sf.flatten = ps at h
+  induction ps with
+  | nil => rfl
+  | cons p ps ih =>
+    simp only [List.foldl_cons, remove_not_pending_noop tg s hw p (h p (by simp)).1 (h p (by simp)).2]
+    exact ih (fun q hq => h q (by simp [hq]))
+
+/-- a proposal added (again) is viewed until it expires: in whatever state the store is — after any
+burst, drain, removal of absent work ids — `AddProposals(p)` makes `p` part of every view of its type
+taken within the expiry time -/
+theorem added_is_viewed (tg : String → Nat) (s : MStore) (hw : WFS s) (p : Proposal) (now now' : Nat)
+    (hlog : tg p.upkeepID = logT) (hle : now' - now ≤ Gen.logRecoveryExpiryNs) :
+    p ∈ ((s.addProposals tg now [p]).viewProposals logT now').1 := by
+  have hw' := WFS_addProposals tg now [p] hw
+  simp only [MStore.addProposals, List.foldl_cons, List.foldl_nil, MStore.add1, hlog, if_true] at hw' ⊢
+  simp only [MStore.viewProposals, if_true]
+  refine (mem_view_iff _ now' hw'.log p).mpr ⟨p.workID, { createdAt := now, proposal := p }, ?_, ?_, rfl⟩
+  · rw [add_values, GMap.get_set_self]
+  · simp only [recExpired, decide_eq_false_iff_not]; omega
 
 /-! ### the loop before the fix: skips and repeats -/
 
@@ -428,7 +631,7 @@ theorem history_spec (tg : String → Nat) (now0 : Nat) (ops : List Op) (hn : Or
     spec tg now0 ops (run tg ops (St.init now0)) = true := by
   have hs : Sim (St.init now0) (SSt.init now0) := ⟨rfl, rfl, rfl, rfl⟩
   unfold spec
-  rw [sRun_model tg ops WFS_empty hs]
+  rw [sRun_model tg ops WFS_empty hs hn]
   simp only [Bool.true_and, eventsOk, decide_eq_true_eq]
   exact handed_once_per_block tg now0 ops hn
 
@@ -457,5 +660,25 @@ example : ∃ (q : Queue) (ex : QRec), GMap.get q (pQ 101).workID = some ex ∧ 
 example : ∃ s : MStore, WFS s ∧ wP "a" ∈ (s.viewProposals 1 0).1 ∧
     ∀ x ∈ ((removeFromMetadataHook (fun _ => 1) [[wP "a"]] s).viewProposals 1 0).1, x.workID ≠ "a" :=
   ⟨MStore.empty.addProposals (fun _ => 1) 0 [wP "a", wP "b"], WFS_addProposals _ _ _ WFS_empty, by decide, by decide⟩
+
+/-- seven pending log proposals, five per observation: the shuffle puts `g`, `a` first -/
+def obsStore : MStore := MStore.empty.addProposals (fun _ => 1) 0 (["a", "b", "c", "d", "e", "f", "g"].map wP)
+
+example : ((obsStore.observe 1 5 0 ["g", "a"]).1).map (·.workID) = ["g", "a", "b", "c", "d"] := by decide
+
+/-- `f` (deferred by that observation) and `g` (sent) are surfaced: the next observation, whatever its
+shuffle prefers, carries all five that are left and neither `f` nor `g` -/
+example : ((removeFromMetadataHook (fun _ => 1) [[wP "f"], [wP "g"]] obsStore).observe 1 5 0 ["f", "g", "e"]).1.map (·.workID) =
+    ["e", "a", "b", "c", "d"] := by decide
+
+/-- the filterer withholds the payload of a pending proposal and lets the one of a surfaced proposal pass -/
+example : ((removeFromMetadataHook (fun _ => 1) [[wP "f"]] obsStore).filterer 1 0 [wP "a", wP "f", wP "z"]).1.map (·.workID) =
+    ["f", "z"] := by decide
+
+/-- added before the first `Start`, while closed, and across a restart: all viewed -/
+example : (run (fun _ => 1) [.add [wP "a"], .svc true, .view 1, .svc false, .add [wP "b"], .svc true, .svc true, .view 1]
+      (St.init 0)).filterMap id = [[wP "a"], [wP "a", wP "b"]] := by decide
+
+example : OrdersNodup [.observe 1 5 ["g", "a"], .svc true, .filter 1 [wP "a"]] := OrdersNodup_of_all _ (by decide)
 
 end AutoVerif.C11
